@@ -45,7 +45,7 @@ DictGet(d, name) == IF d.t = "dict" THEN PairsGet(d.v, name) ELSE Missing
 ---------------------------------------------------------------------------
 (* cursor machine *)
 \* rqm: the triggering request (bytes), for MATCHING-REQUEST-PARAM
-EncInit(rqm) == [pdu |-> <<>>, used |-> <<>>, cur |-> 0, org |-> 0, eop |-> TRUE, lk |-> <<>>, tk |-> <<>>, kp |-> <<>>,
+EncInit(rqm) == [pdu |-> <<>>, used |-> <<>>, cur |-> 0, org |-> 0, eop |-> TRUE, lk |-> <<>>, tk |-> <<>>, kp |-> <<>>, jr |-> <<>>,
                  ovl |-> FALSE, err |-> FALSE, rqm |-> rqm]
 Err(st) == [st EXCEPT !.err = TRUE]
 Grow(st, nbytes) == IF Len(st.pdu) >= 8 * nbytes THEN st
@@ -138,7 +138,7 @@ ParamNames(ps) == {ps[i].n : i \in 1..Len(ps)}
 DictNames(d) == {d.v[i][1] : i \in 1..Len(d.v)}
 DopBits(d) == IF d.k = "simple" /\ d.dct.k = "std" THEN d.dct.bits ELSE -1
 
-RECURSIVE EncDop(_, _, _, _), EncParams(_, _, _, _, _), EncItems(_, _, _, _, _), PatchKeys(_, _, _)
+RECURSIVE EncDop(_, _, _, _), EncParams(_, _, _, _, _), EncItems(_, _, _, _, _), PatchKeys(_, _, _), EncCompositeX(_, _, _, _, _)
 
 EncParam(p, v, st, last, outerEop) ==
     IF st.err THEN st ELSE
@@ -182,9 +182,13 @@ EncParam(p, v, st, last, outerEop) ==
                         ELSE EncDop(row.st, v.b, [s0 EXCEPT !.tk = PairsPut(s0.tk, p.sys, v.a)], bit)
          [] OTHER -> Err(s0)
 
+\* the journal: the value each parameter met so far was encoded with (supplied, default or constant); an environment data
+\* description looks up the trouble code of the parameter it refers to there
+Effective(p, v) == IF ~IsMissing(v) THEN v ELSE IF p.k \in {"VALUE", "SYSTEM"} THEN p.dv ELSE IF p.k \in {"CODED-CONST", "PHYS-CONST"} THEN p.cv ELSE Missing
 EncParams(ps, i, d, st, outerEop) ==
     IF i > Len(ps) \/ st.err THEN st
-    ELSE EncParams(ps, i + 1, d, EncParam(ps[i], DictGet(d, ps[i].n), st, i = Len(ps), outerEop), outerEop)
+    ELSE LET s1 == EncParam(ps[i], DictGet(d, ps[i].n), st, i = Len(ps), outerEop) IN
+         EncParams(ps, i + 1, d, [s1 EXCEPT !.jr = PairsPut(s1.jr, ps[i].n, Effective(ps[i], DictGet(d, ps[i].n)))], outerEop)
 
 \* after the last parameter: fill in the keys, in list order
 PatchKeys(ps, i, st) ==
@@ -203,14 +207,16 @@ PatchKeys(ps, i, st) ==
     ELSE PatchKeys(ps, i + 1, st)
 
 \* a parameter list (request, response, structure): positions are relative to where it starts
-EncComposite(ps, d, st, bit) ==
+\* lax: values for parameters the list does not know are ignored (environment data: one dictionary serves several lists)
+EncCompositeX(ps, d, st, bit, lax) ==
     IF st.err THEN st
-    ELSE IF d.t # "dict" \/ bit # 0 \/ ~(DictNames(d) \subseteq ParamNames(ps)) THEN Err(st)
+    ELSE IF d.t # "dict" \/ bit # 0 \/ (~lax /\ ~(DictNames(d) \subseteq ParamNames(ps))) THEN Err(st)
     ELSE LET s1 == EncParams(ps, 1, d, [st EXCEPT !.org = st.cur], st.eop)
              s2 == PatchKeys(ps, 1, [s1 EXCEPT !.eop = FALSE])
          IN [s2 EXCEPT !.org = st.org, !.eop = st.eop,
                        \* the next object follows the last parameter of the list, not the last key that was filled in
                        !.cur = IF \E k \in 1..Len(ps) : IsKey(ps[k]) THEN s1.cur ELSE s2.cur]
+EncComposite(ps, d, st, bit) == EncCompositeX(ps, d, st, bit, FALSE)
 
 EncItems(sd, items, i, st, outerEop) ==
     IF i > Len(items) \/ st.err THEN st
@@ -219,6 +225,14 @@ EncItems(sd, items, i, st, outerEop) ==
 EncDop(d, v, st, bit) ==
     IF st.err THEN st ELSE
     CASE d.k = "simple" -> EncAtomic(d.dct, v, st, bit)
+      \* environment data: the parameters common to all trouble codes, then those of the code of the referenced parameter
+      [] d.k = "envdesc" ->
+           LET code == PairsGet(st.jr, d.ref) IN
+           IF v.t # "dict" \/ bit # 0 \/ code.t # "int" THEN Err(st)
+           ELSE LET s1 == IF d.hasall THEN EncCompositeX(d.all, v, st, 0, TRUE) ELSE st
+                    hit == {i \in 1..Len(d.per) : code.v \in d.per[i].codes}
+                IN IF hit = {} \/ s1.err THEN s1
+                   ELSE EncCompositeX(d.per[CHOOSE i \in hit : \A j \in hit : i <= j].ps, v, s1, 0, TRUE)
       \* a DTC object is coded like a simple one; its values are the trouble codes the description defines
       [] d.k = "dtc" -> IF v.t = "int" /\ \E i \in 1..Len(d.codes) : d.codes[i] = v.v THEN EncAtomic(d.dct, v, st, bit) ELSE Err(st)
       [] d.k = "struct" ->
@@ -271,7 +285,7 @@ PduBytes(st) == BitsBytes(st.pdu)
 
 ---------------------------------------------------------------------------
 (* decoder *)
-DecInit(pdu) == [pdu |-> pdu, cur |-> 0, org |-> 0, lk |-> <<>>, tk |-> <<>>, err |-> FALSE, mism |-> FALSE, hi |-> 0]
+DecInit(pdu) == [pdu |-> pdu, cur |-> 0, org |-> 0, lk |-> <<>>, tk |-> <<>>, jr |-> <<>>, err |-> FALSE, mism |-> FALSE, hi |-> 0]
 DErr(ds) == [ds EXCEPT !.err = TRUE]
 R(ds, v) == [ds |-> ds, v |-> v]
 NBytes(ds) == Len(ds.pdu) \div 8
@@ -375,7 +389,8 @@ DecParam(p, ds) ==
 
 DecParams(ps, i, ds, acc) ==
     IF i > Len(ps) \/ ds.err THEN R(ds, [t |-> "dict", v |-> acc])
-    ELSE LET r == DecParam(ps[i], ds) IN DecParams(ps, i + 1, r.ds, Append(acc, <<ps[i].n, r.v>>))
+    ELSE LET r == DecParam(ps[i], ds) IN
+         DecParams(ps, i + 1, [r.ds EXCEPT !.jr = PairsPut(r.ds.jr, ps[i].n, r.v)], Append(acc, <<ps[i].n, r.v>>))
 
 DecComposite(ps, ds) ==
     LET r == DecParams(ps, 1, [ds EXCEPT !.org = ds.cur], <<>>) IN R([r.ds EXCEPT !.org = ds.org], r.v)
@@ -397,6 +412,14 @@ DecToMarker(d, ds, acc) ==
 DecDop(d, ds, bit) ==
     IF ds.err THEN R(ds, Missing) ELSE
     CASE d.k = "simple" -> DecAtomic(d.dct, ds, bit)
+      [] d.k = "envdesc" ->
+           LET code == PairsGet(ds.jr, d.ref) IN
+           IF code.t # "int" THEN R(DErr(ds), Missing)
+           ELSE LET r1 == IF d.hasall THEN DecComposite(d.all, ds) ELSE R(ds, [t |-> "dict", v |-> <<>>])
+                    hit == {i \in 1..Len(d.per) : code.v \in d.per[i].codes}
+                IN IF hit = {} \/ r1.ds.err THEN r1
+                   ELSE LET r2 == DecComposite(d.per[CHOOSE i \in hit : \A j \in hit : i <= j].ps, r1.ds) IN
+                        IF r2.ds.err THEN r2 ELSE R(r2.ds, [t |-> "dict", v |-> r1.v.v \o r2.v.v])
       [] d.k = "dtc" -> LET r == DecAtomic(d.dct, ds, bit) IN
                         IF r.ds.err THEN r
                         ELSE IF r.v.t = "int" /\ \E i \in 1..Len(d.codes) : d.codes[i] = r.v.v THEN r ELSE R(DErr(r.ds), Missing)
